@@ -75,6 +75,30 @@ Theorem C03_twobyte_view : forall a b items id, Forall wf_item2 items -> 1 <= id
 Proof. exact twobyte_view_agrees. Qed.
 Print Assumptions C03_twobyte_view.
 
+(* the raw (RFC 3550) view keeps any other block as the byte string it was handed, under id 0, and the
+   RFC 8285 views refuse it (and vice versa); every view re-serialises byte-identically *)
+Theorem C03_raw_view : forall p0 p1 rest id, 0 <= p0 < 256 -> 0 <= p1 < 256 ->
+  be16 p0 p1 <> profile_one_byte -> be16 p0 p1 <> profile_two_byte ->
+  let buf := p0 :: p1 :: rest in
+  raw_unmarshal buf = Ok buf /\ raw_get_ids buf = [0] /\
+  raw_get buf id = (if id =? 0 then Some buf else None) /\
+  onebyte_unmarshal buf = Err ENotFound /\ twobyte_unmarshal buf = Err ENotFound.
+Proof. exact raw_view. Qed.
+Print Assumptions C03_raw_view.
+
+Theorem C03_raw_view_refuses_8285 : forall a b rest,
+  raw_unmarshal (190 :: 222 :: a :: b :: rest) = Err ENotFound /\
+  raw_unmarshal (16 :: 0 :: a :: b :: rest) = Err ENotFound.
+Proof. exact raw_view_refuses_8285. Qed.
+Print Assumptions C03_raw_view_refuses_8285.
+
+Theorem C03_view_reserialise : forall payload dst,
+  (zlen payload <= zlen dst ->
+     view_marshal_to payload dst = Ok (payload ++ drop (zlen payload) dst, zlen payload)) /\
+  (zlen dst < zlen payload -> view_marshal_to payload dst = Err EShortBuffer).
+Proof. exact view_marshal_identity. Qed.
+Print Assumptions C03_view_reserialise.
+
 Theorem C03_header_lookup : forall h id, extension h = true -> get_extension h id = lookup (extensions h) id.
 Proof. exact header_lookup. Qed.
 Print Assumptions C03_header_lookup.
